@@ -150,7 +150,16 @@ DIFFERENT += [
      "def f(b, c, flag):\n    a = b if flag else c\n    b.append(1)\n    n = len(a)\n    return n\n"),
 ]
 
+DIFFERENT += [
+    ("swap by tuple assignment vs two assignments one after the other",
+     "def f(a, b):\n    a, b = b, a\n    return (a, b)\n",
+     "def f(a, b):\n    a = b\n    b = a\n    return (a, b)\n"),
+]
+
 SAME = [
+    ("tuple assignment whose values only read their own target",
+     "def f(t, s, n):\n    t = t[n:]\n    s = s[n:]\n    return (t, s)\n",
+     "def f(t, s, n):\n    t, s = t[n:], s[n:]\n    return (t, s)\n"),
     ("local alias of a table row written out although the row's content changes in between",
      "def f(table, k, x, w):\n    table[k].remove(x)\n    table[k].update(x, w)\n    if table[k].total_weight() < 1:\n        table[k].update_total_weight()\n",
      "def f(table, k, x, w):\n    row = table[k]\n    row.remove(x)\n    row.update(x, w)\n    if row.total_weight() < 1:\n        row.update_total_weight()\n"),
